@@ -247,38 +247,57 @@ def run(ctx):
     else:
         res = QsysResult(shots if ch.coin(1, 2, "as-shots") else [copy.deepcopy(e) for e in logs])
     ctx.steps += 1
-    if not any_ambiguous:
-        for sn in (False, True):
-            for sl in (False, True):
-                ctx.checked("multi-shot")
-                got = call(res.register_bitstrings, strict_names=sn, strict_lengths=sl)
-                gotc = call(res.register_counts, strict_names=sn, strict_lengths=sl)
-                if any_invalid:
+    def multi_shot(res, per_shot, logs, combos, label=""):
+        for sn, sl in combos:
+            ctx.checked("multi-shot" + label)
+            got = call(res.register_bitstrings, strict_names=sn, strict_lengths=sl)
+            gotc = call(res.register_counts, strict_names=sn, strict_lengths=sl)
+            if any_invalid:
+                exp = "ValueError"
+            else:
+                exp = {}
+                for d in per_shot:
+                    for r, b in d.items():
+                        exp.setdefault(r, []).append(b)
+                names_differ = any(set(d) != set(per_shot[0]) for d in per_shot)
+                lens_differ = any(len({len(b) for b in bs}) > 1 for bs in exp.values())
+                if names_differ:
+                    ctx.probe("names_differ" + label)
+                if lens_differ:
+                    ctx.probe("lengths_differ" + label)
+                if (sn and names_differ) or (sl and lens_differ):
                     exp = "ValueError"
-                else:
-                    exp = {}
-                    for d in per_shot:
-                        for r, b in d.items():
-                            exp.setdefault(r, []).append(b)
-                    names_differ = any(set(d) != set(per_shot[0]) for d in per_shot)
-                    lens_differ = any(len({len(b) for b in bs}) > 1 for bs in exp.values())
-                    if names_differ:
-                        ctx.probe("names_differ")
-                    if lens_differ:
-                        ctx.probe("lengths_differ")
-                    if (sn and names_differ) or (sl and lens_differ):
-                        exp = "ValueError"
-                        ctx.probe("strict_reject")
-                ctx.ev("all", "register_bitstrings", {"strict_names": sn, "strict_lengths": sl}, rep(got))
-                if got != exp:
-                    cls = "strict-not-enforced" if exp == "ValueError" else (
-                        "strict-overreject" if got == "ValueError" else "bitstrings")
-                    ctx.violate("multi-shot", f"{cls}:names={sn},lengths={sl}",
-                                {"shots": rep(logs), "got": rep(got), "expected": rep(exp)})
-                expc = exp if exp == "ValueError" else {r: Counter(bs) for r, bs in exp.items()}
-                if gotc != expc:
-                    ctx.violate("multi-shot", f"counts:names={sn},lengths={sl}",
-                                {"shots": rep(logs), "got": rep(gotc), "expected": rep(expc)})
+                    ctx.probe("strict_reject" + label)
+            ctx.ev("all", "register_bitstrings" + label, {"strict_names": sn, "strict_lengths": sl}, rep(got))
+            if got != exp:
+                cls = "strict-not-enforced" if exp == "ValueError" else (
+                    "strict-overreject" if got == "ValueError" else "bitstrings")
+                ctx.violate("multi-shot", f"{cls}:names={sn},lengths={sl}{label}",
+                            {"shots": rep(logs), "got": rep(got), "expected": rep(exp)})
+            expc = exp if exp == "ValueError" else {r: Counter(bs) for r, bs in exp.items()}
+            if gotc != expc:
+                ctx.violate("multi-shot", f"counts:names={sn},lengths={sl}{label}",
+                            {"shots": rep(logs), "got": rep(gotc), "expected": rep(expc)})
+
+    if not any_ambiguous:
+        multi_shot(res, per_shot, logs, [(False, False), (False, True), (True, False), (True, True)])
+        if not any_invalid and not ctx.violations and ch.coin(1, 3, "grow-after-queries"):
+            # the result object lives on: one more shot arrives in the public `results` list after the queries above
+            # (the last of them strict); it brings a register nobody had and a longer value for an existing one, and
+            # every query is made again, strict ones first in some runs.  Same convention, nothing remembered.
+            first = next(iter(per_shot[0]), None) if per_shot else None
+            extra = [("late_reg", [1, 0, 1])]
+            if first is not None and "[" not in first:
+                extra.append((first, [1] * (len(per_shot[0][first]) + 2)))
+            from hugr.qsystem.result import QsysShot as _Shot
+            res.results.append(_Shot(copy.deepcopy(extra)))
+            logs = logs + [extra]
+            per_shot = per_shot + [expected_bits(extra)[0][-1]]
+            ctx.probe("shot_appended_after_queries")
+            ctx.fault("result-grows-after-queries")
+            combos = [(True, True), (True, False), (False, True), (False, False)]
+            k = ch.draw(4, "requery-rotation")
+            multi_shot(res, per_shot, logs, combos[k:] + combos[:k], ":after-growth")
     # collated counts
     ctx.checked("collate")
     try:
